@@ -1344,6 +1344,11 @@ class WCS(GWCSAPIMixin):
         if value is None:
             transform_0.bounding_box = value
         else:
+            if (transform_0.n_inputs == 1 and isinstance(value, (tuple, list, np.ndarray))
+                    and np.shape(value) not in [(2,), (1, 2)]):
+                # astropy takes an array of shape (2, k) for one interval of arrays
+                raise ValueError("The bounding box of a transform with one input is one "
+                                 "interval: (lower, upper).")
             try:
                 # Make sure the dimensions of the new bbox are correct.
                 if isinstance(value, CompoundBoundingBox):
